@@ -43,6 +43,7 @@ type writerPlan struct {
 	Compressed bool
 	DontClose  bool // JSON / CSV on a stream the writer does not own (as WriteJSONToStdout does)
 	CSVAuto    bool
+	CSVCols    int // bit 0: count, 1: definition, 2: the "sample" attribute, 3: quality
 	Recs       []Rec
 	LongSeq    bool
 	ToFile     int // 0: simulated endpoint; 1: the ...ToFile entry point on a new file; 2: on a file left by a longer run; 3: on a shorter one; 4: longer one, append mode
@@ -51,7 +52,7 @@ type writerPlan struct {
 
 func (p writerPlan) sample() map[string]any {
 	return map[string]any{"writer": wkNames[p.Kind], "batches": p.N, "sizes": p.Sizes, "arrival": permString(p.Arrival),
-		"workers": p.Workers, "compressed": p.Compressed, "dont_close": p.DontClose, "csv_auto": p.CSVAuto, "records": len(p.Recs), "giant_batch_bytes": p.Giant, "to_file": p.ToFile}
+		"workers": p.Workers, "compressed": p.Compressed, "dont_close": p.DontClose, "csv_auto": p.CSVAuto, "csv_columns": p.CSVCols, "records": len(p.Recs), "giant_batch_bytes": p.Giant, "to_file": p.ToFile}
 }
 
 var sizeTable = []int{1, 0, 2, 3}
@@ -76,13 +77,24 @@ func drawWriterPlan(t *simrt.Tape, maxN int, big bool) writerPlan {
 	}
 	if p.Kind == wkCSV {
 		p.CSVAuto = t.Choose(4) == 3
+		if !p.CSVAuto && t.Choose(2) == 1 {
+			p.CSVCols = 1 + t.Choose(15)
+		}
 	}
 	lo, hi := 3, 70
 	if big {
 		p.LongSeq = true
 		lo, hi = 900, 2500
 	}
-	p.Recs = genRecs(t, total, 0, p.Kind == wkFastq, lo, hi)
+	p.Recs = genRecs(t, total, 0, p.Kind == wkFastq || (p.Kind == wkCSV && p.CSVCols&8 != 0 && t.Choose(2) == 1), lo, hi)
+	if p.Kind == wkCSV && p.CSVCols&2 != 0 {
+		// definitions that need quoting
+		for i := range p.Recs {
+			if t.Choose(3) == 2 {
+				p.Recs[i].Def = []string{`he said "x", twice`, "a,b", `"`, " leading space", "semi;colon"}[t.Choose(5)]
+			}
+		}
+	}
 	if !big && p.N >= 2 && t.Choose(64) == 0 {
 		makeGiant(t, &p)
 	}
@@ -198,6 +210,12 @@ func writerOptions(p writerPlan) []obiformats.WithOption {
 	}
 	if p.CSVAuto {
 		o = append(o, obiformats.CSVAutoColumn(true))
+	}
+	if p.CSVCols != 0 {
+		o = append(o, obiformats.CSVCount(p.CSVCols&1 != 0), obiformats.CSVDefinition(p.CSVCols&2 != 0), obiformats.CSVQuality(p.CSVCols&8 != 0))
+		if p.CSVCols&4 != 0 {
+			o = append(o, obiformats.CSVKeys([]string{"sample"}))
+		}
 	}
 	return o
 }
@@ -380,6 +398,10 @@ func checkWriterOutput(rc *RunCtx, prop string, p writerPlan, raw []byte) {
 			rc.Violate(prop+"/csv/unparsable"+arrivalShape(p), "%v", err)
 			return
 		}
+		if p.CSVCols != 0 {
+			checkCSVColumns(rc, prop, p, rows)
+			return
+		}
 		if len(rows) == 0 || len(rows[0]) < 2 || rows[0][0] != "id" || rows[0][len(rows[0])-1] != "sequence" || (!p.CSVAuto && len(rows[0]) != 2) {
 			first := "<no row>"
 			if len(rows) > 0 {
@@ -395,6 +417,70 @@ func checkWriterOutput(rc *RunCtx, prop string, p writerPlan, raw []byte) {
 		if !equalStrings(got, ids) {
 			rc.Violate(prop+"/csv/records-differ"+arrivalShape(p), "rows: %s; arrival %s sizes %v", firstDiff(got, ids), permString(p.Arrival), p.Sizes)
 		}
+	}
+}
+
+// checkCSVColumns: with the optional columns on, the header names them in the documented order
+// and every cell is the value of its record (whatever quoting the value needs).
+func checkCSVColumns(rc *RunCtx, prop string, p writerPlan, rows [][]string) {
+	want := [][]string{}
+	head := []string{"id"}
+	if p.CSVCols&1 != 0 {
+		head = append(head, "count")
+	}
+	if p.CSVCols&2 != 0 {
+		head = append(head, "definition")
+	}
+	if p.CSVCols&4 != 0 {
+		head = append(head, "sample")
+	}
+	head = append(head, "sequence")
+	if p.CSVCols&8 != 0 {
+		head = append(head, "quality")
+	}
+	want = append(want, head)
+	for _, r := range p.Recs {
+		row := []string{r.ID}
+		if p.CSVCols&1 != 0 {
+			c := 1
+			if v, ok := r.Annot["count"]; ok {
+				c = v.(int)
+			}
+			row = append(row, fmt.Sprint(c))
+		}
+		if p.CSVCols&2 != 0 {
+			row = append(row, r.Def)
+		}
+		if p.CSVCols&4 != 0 {
+			v := "NA"
+			if x, ok := r.Annot["sample"]; ok {
+				v = fmt.Sprint(x)
+			}
+			row = append(row, v)
+		}
+		row = append(row, r.Seq)
+		if p.CSVCols&8 != 0 {
+			if r.Qual != nil {
+				q := make([]byte, len(r.Qual))
+				for i, v := range r.Qual {
+					q[i] = v + 33
+				}
+				row = append(row, string(q))
+			} else {
+				row = append(row, "NA")
+			}
+		}
+		want = append(want, row)
+	}
+	flat := func(rs [][]string) []string {
+		out := make([]string, len(rs))
+		for i, r := range rs {
+			out[i] = strings.Join(r, "\x1f")
+		}
+		return out
+	}
+	if !equalStrings(flat(rows), flat(want)) {
+		rc.Violate(prop+"/csv/cells-differ"+arrivalShape(p), "columns %04b: %s; arrival %s sizes %v", p.CSVCols, firstDiff(flat(rows), flat(want)), permString(p.Arrival), p.Sizes)
 	}
 }
 
